@@ -241,6 +241,13 @@ pub fn faults(bs: &[Backend], bi: usize, t: &Tok, others: &[Vec<u8>], g: &mut Sp
             }
         }
     }
+    // 10. text-level: further dot-separated sections after the token (with or without content)
+    for tail in [".", "..", ".AAAA", "..AAAA", ".AA", ". ", ".=", "...", ".AAAA.AAAA"] {
+        let s = format!("{text}{tail}");
+        let mut f = base("text-extra-section", format!("+ {tail:?}"));
+        f.text = Some(s);
+        out.push(f);
+    }
     out
 }
 
@@ -482,6 +489,46 @@ pub fn run(ctx: &Ctx) {
                     }
                     if rep.violations.len() >= 40 {
                         break;
+                    }
+                }
+            }
+        }
+    }
+    // the same over the FOOTER length and (where supported) the ASSERTION length, 1..=140 bytes, 7-byte message: the first
+    // and the last byte of the swept piece changed — a fixed-capacity buffer for the authenticated data that is one byte
+    // short drops exactly the last byte of a piece of one particular length
+    {
+        let mut g = SplitMix64::new(ctx.seed ^ 0xF007C02);
+        for b in &bs {
+            let kps = tok::keypairs(b, &mut g, 1);
+            for purpose in ["local", "public"] {
+                let step = if b.name == "v1" && purpose == "public" && !ctx.thorough() { 5 } else { 1 };
+                let lk = g.bytes(32);
+                for which in ["footer", "assertion"] {
+                    if which == "assertion" && !b.aad {
+                        continue;
+                    }
+                    for len in (1..=140usize).step_by(step).chain([255usize, 256, 257, 1024]) {
+                        let swept = content(&mut g, len);
+                        let (footer, a): (Vec<u8>, Vec<u8>) = if which == "footer" { (swept.clone(), if b.aad { b"ia".to_vec() } else { vec![] }) } else { (b"f".to_vec(), swept.clone()) };
+                        let msg = b"7 bytes".to_vec();
+                        let (key, tokstr) = if purpose == "local" { (lk.clone(), (b.local_encrypt)(&lk, &msg, &footer, &a, SealVia::Seal)) } else { (kps[0].pk.clone(), (b.public_sign)(&kps[0].sk, &msg, &footer, &a, SealVia::Seal)) };
+                        let Ok(tokstr) = tokstr else { continue };
+                        let Some((payload, ft)) = lab::token_parts(&tokstr) else { continue };
+                        for (pos_name, pos) in [("last", len - 1), ("first", 0usize)] {
+                            let (mut f2, mut a2) = (ft.clone(), a.clone());
+                            if which == "footer" { f2[pos] ^= 1 } else { a2[pos] ^= 1 };
+                            rep.evaluations += 1;
+                            rep.count("fault.piece-length-sweep");
+                            let t = lab::token_string(b.ver, purpose, &payload, &f2);
+                            if let Ok((claims, _)) = unseal(b, purpose, &key, &t, &a2) {
+                                rep.violation(&format!("c02.{}.{}.accepted.piece-length-sweep", b.name, purpose), format!("{} {} token with a {len}-byte {which} accepted after changing the {pos_name} byte of the {which}: returned {} claim bytes", b.name, purpose, claims.len()),
+                                              json!({"backend": b.name, "purpose": purpose, "fault": format!("piece-length-sweep: {pos_name} byte of a {len}-byte {which}"), "key": hex::encode(&key), "token": t, "aad": hex::encode(&a2)}));
+                            }
+                        }
+                        if rep.violations.len() >= 40 {
+                            break;
+                        }
                     }
                 }
             }
